@@ -43,6 +43,7 @@ class Machine:
         return v
     def wx(s, r, v):
         if r == 0: return
+        if r == 2 and isinstance(v, Ptr) and is_c(v.off): s.min_sp = v.off if getattr(s, 'min_sp', None) is None else min(s.min_sp, v.off)
         s.written_x.add(r); s.x[r] = v if isinstance(v, Ptr) else mk(v, 64)
     def rf(s, r):
         v = s.f[r]
